@@ -1,5 +1,5 @@
 """C17 - contains_point agrees with the fill rule."""
-from .. import core, pathcheck as pc, scene, scenecheck as sc, build, gen
+from .. import core, pathcheck as pc, scene, scenecheck as sc, build, gen, geom
 from ..gen import f32bits as FB, bits_f32
 from . import _path
 
@@ -43,6 +43,36 @@ def query(rng, ops):
     return (rng.randrange(-24, 60) / 4.0, rng.randrange(-24, 60) / 4.0)
 
 
+def curve_extremes(ops):
+    """for every curve of the path (cursor as filling keeps it): its samples farthest up / down / left / right, each with
+    the midpoint of the curve's chord -> [(sample, chord_mid)]"""
+    out, cur, start = [], None, None
+    for o in ops:
+        t = o.split()
+        v = [bits_f32(int(z)) for z in t[1:] if z.lstrip("-").isdigit()] if t[0] in "MLQC" else []
+        if t[0] == "M":
+            cur = start = (v[0], v[1])
+        elif t[0] == "L":
+            if cur is None:
+                start = (v[0], v[1])
+            cur = (v[0], v[1])
+        elif t[0] == "Z":
+            cur = start
+        elif t[0] in ("Q", "C"):
+            n = 4 if t[0] == "Q" else 6
+            pts = [(v[j], v[j + 1]) for j in range(0, n, 2)]
+            if cur is None:
+                cur = start = pts[0]
+            full = [cur] + pts
+            sam = [geom.quad(full[0], full[1], full[2], k / 16.0) if t[0] == "Q" else geom.cubic(full[0], full[1], full[2], full[3], k / 16.0)
+                   for k in range(1, 16)]
+            mid = ((full[0][0] + full[-1][0]) / 2, (full[0][1] + full[-1][1]) / 2)
+            for key in (lambda p: p[1], lambda p: -p[1], lambda p: p[0], lambda p: -p[0]):
+                out.append((max(sam, key=key), mid))
+            cur = pts[-1]
+    return out
+
+
 def make_lines(rng, n):
     lines = []
     for i in range(n):
@@ -50,7 +80,19 @@ def make_lines(rng, n):
             ops = grid_ops(rng)
         else:
             ops = pc.mixed_ops(rng)
+            if rng.random() < 0.3:
+                # one curve closed by its chord (or by a couple of lines): its bulge is the path's extreme
+                P = lambda: pc.gridpt(rng)
+                cv = ("Q %s %s" % (scene.fpt(*P()), scene.fpt(*P()))) if rng.random() < 0.4 else \
+                     ("C %s %s %s K 0" % (scene.fpt(*P()), scene.fpt(*P()), scene.fpt(*P())))
+                ops = ["M " + scene.fpt(*P()), cv] + ["L " + scene.fpt(*P()) for _ in range(rng.randrange(0, 2))] + ["Z"]
         x, y = query(rng, ops)
+        ce = curve_extremes(ops) if rng.random() < 0.6 else []
+        if ce:
+            # just inside (or just beyond) the farthest point of a curve's bulge
+            (sx, sy), (mx, my) = rng.choice(ce)
+            k = rng.choice([0.02, 0.05, 0.1, 0.2, -0.02])
+            x, y = sx + (mx - sx) * k, sy + (my - sy) * k
         u = rng.random()
         if u < 0.08:
             # a point on an edge line moved off it by a unit or two in the last place: it is NOT on the edge any more
@@ -229,7 +271,7 @@ def on_some_segment(q):
 def fill_agreement(ctx):
     """contains_point vs what fill paints, on the implementation"""
     rng = ctx.rng
-    n = 240 if ctx.tier == "quick" else 3000
+    n = 400 if ctx.tier == "quick" else 4000
     W = H = 14
     scenes, paths = [], []
     for i in range(n):
@@ -261,7 +303,7 @@ def fill_agreement(ctx):
             for x in range(1, W - 1):
                 nb = [a[(y + dy) * W + x + dx] for dy in (-1, 0, 1) for dx in (-1, 0, 1)]
                 if all(v == 255 for v in nb) or all(v == 0 for v in nb):
-                    if rng.random() < 0.12:
+                    if rng.random() < 0.4:
                         queries.append("pcontains %d %d %d %d %s" % (len(queries), FB(0.05), FB(x + 0.5), FB(y + 0.5), paths[i]))
                         expect.append("true" if nb[0] == 255 else "false")
     ctx.cov["fill_agreement_queries"] = len(queries)
